@@ -8,6 +8,13 @@
 // the only thing left to the Go scheduler is how many updates the client's select loop takes
 // from its channel between two calls - observed through len(channel) at the next call.
 //
+// Second mode ("geth"): the same scripted node is served by an in-process go-ethereum rpc.Server
+// over a websocket (eth_chainId, eth_blockNumber, eth_getBlockByNumber("finalized"), eth_getLogs,
+// eth_subscribe("logs")) to the REAL l1.GethL1StateProvider (l1/geth_l1_state_provider.go: abigen
+// filterer, forwardStateUpdates) feeding the real client. The gate sits in the rpc handlers; a log
+// pushed to the subscription is waited for until it has reached the client's channel, so the same
+// events, the same monitor and the same TLC trace validation apply.
+//
 // Besides the trace (validated by TLC) a direct monitor evaluates the property on the run:
 // after every setL1Head the database must hold exactly the best merged, not removed event at or
 // below the reported finalised height.
@@ -20,8 +27,10 @@ import (
 	"fmt"
 	"math/big"
 	"math/rand"
+	"net/http/httptest"
 	"os"
 	"path/filepath"
+	"strings"
 	"sync"
 	"testing"
 	"time"
@@ -34,7 +43,12 @@ import (
 	"github.com/NethermindEth/juno/db/memory"
 	_ "github.com/NethermindEth/juno/encoder/registry"
 	jl1 "github.com/NethermindEth/juno/l1"
+	"github.com/NethermindEth/juno/l1/eth"
 	"github.com/NethermindEth/juno/utils/log"
+	"github.com/ethereum/go-ethereum/common"
+	"github.com/ethereum/go-ethereum/common/hexutil"
+	"github.com/ethereum/go-ethereum/core/types"
+	"github.com/ethereum/go-ethereum/rpc"
 
 	"verifharness/internal/vh"
 )
@@ -62,12 +76,14 @@ type input struct {
 	Rounds   int   `json:"rounds"`    // scheduler rounds per trace
 	TraceOut string `json:"trace_out"` // file name (in scratch) for the concatenated trace
 	Lag      bool  `json:"lag"`       // directed scenario WITHOUT the finality-after-notices assumption
+	Geth     bool  `json:"geth"`      // serve the scripted node through go-ethereum rpc to the real GethL1StateProvider
 }
 
 // ---------------------------------------------------------------------------- gated provider
 
 type gresp struct {
 	val    uint64
+	ids    []int // event ids answering a filter call (geth mode: turned into logs by the handler)
 	events []*jl1.StateUpdate
 	sub    jl1.Subscription
 	err    error
@@ -137,6 +153,163 @@ type gsub struct{ errCh chan error }
 func (s *gsub) Err() <-chan error { return s.errCh }
 func (s *gsub) Unsubscribe()      {}
 
+// ---------------------------------------------------------------------------- geth mode: the node behind go-ethereum rpc
+
+const coreContract = "0xc662c410C0ECf747543f5bA90660f6ABeBD9C8c4"
+
+// keccak("LogStateUpdate(uint256,int256,uint256)"), see l1/geth/contract
+var logStateUpdateTopic = common.HexToHash("0xd342ddf7a308dec111745b00315c14b7efb2bdae570a6856e088ed0c65a3576c")
+
+// tapProvider is the real provider; it only remembers the channel the client handed to
+// WatchStateUpdate so that the harness can observe its length.
+type tapProvider struct {
+	*jl1.GethL1StateProvider
+	mu sync.Mutex
+	ch chan<- *jl1.StateUpdate
+}
+
+func (t *tapProvider) WatchStateUpdate(ctx context.Context, ch chan<- *jl1.StateUpdate) (jl1.Subscription, error) {
+	t.mu.Lock()
+	t.ch = ch
+	t.mu.Unlock()
+	return t.GethL1StateProvider.WatchStateUpdate(ctx, ch)
+}
+
+func (t *tapProvider) channel() chan<- *jl1.StateUpdate {
+	t.mu.Lock()
+	defer t.mu.Unlock()
+	return t.ch
+}
+
+// ethNode is the "eth" namespace of the in-process node. Every handler blocks on the scheduler's
+// gate, exactly like the methods of the scripted provider.
+type ethNode struct {
+	r     *run
+	calls chan *gcall
+	done  chan struct{}
+
+	mu       sync.Mutex
+	notifier *rpc.Notifier
+	subID    rpc.ID
+}
+
+var errNodeGone = errors.New("scripted node: run is over")
+
+func (n *ethNode) gate(c *gcall) (gresp, error) {
+	c.resp = make(chan gresp, 1)
+	select {
+	case n.calls <- c:
+	case <-n.done:
+		return gresp{}, errNodeGone
+	}
+	select {
+	case r := <-c.resp:
+		return r, r.err
+	case <-n.done:
+		return gresp{}, errNodeGone
+	}
+}
+
+func (n *ethNode) ChainId() (*hexutil.Big, error) { //nolint:revive,staticcheck
+	if _, err := n.gate(&gcall{m: "ChainID"}); err != nil {
+		return nil, err
+	}
+	return (*hexutil.Big)(new(big.Int).Set(networks.Sepolia.L1ChainID)), nil
+}
+
+func (n *ethNode) BlockNumber() (hexutil.Uint64, error) {
+	r, err := n.gate(&gcall{m: "Latest"})
+	return hexutil.Uint64(r.val), err
+}
+
+func (n *ethNode) GetBlockByNumber(number rpc.BlockNumber, _ bool) (map[string]any, error) {
+	if number != rpc.FinalizedBlockNumber {
+		return nil, fmt.Errorf("scripted node: unsupported block tag %d", number)
+	}
+	r, err := n.gate(&gcall{m: "Fin"})
+	if err != nil {
+		return nil, err
+	}
+	zero32 := "0x" + strings.Repeat("0", 64)
+	return map[string]any{
+		"parentHash": zero32, "sha3Uncles": zero32, "miner": "0x" + strings.Repeat("0", 40),
+		"stateRoot": zero32, "transactionsRoot": zero32, "receiptsRoot": zero32,
+		"logsBloom": "0x" + strings.Repeat("0", 512), "difficulty": "0x0",
+		"number": hexutil.EncodeUint64(r.val), "gasLimit": "0x0", "gasUsed": "0x0", "timestamp": "0x0",
+		"extraData": "0x", "mixHash": zero32, "nonce": "0x0000000000000000", "hash": "0x" + strings.Repeat("1", 64),
+	}, nil
+}
+
+func blockArg(q map[string]any, key string) (uint64, error) {
+	s, _ := q[key].(string)
+	return hexutil.DecodeUint64(s)
+}
+
+func (n *ethNode) GetLogs(q map[string]any) ([]*types.Log, error) {
+	from, err := blockArg(q, "fromBlock")
+	if err != nil {
+		return nil, fmt.Errorf("scripted node: fromBlock: %w", err)
+	}
+	to, err := blockArg(q, "toBlock")
+	if err != nil {
+		return nil, fmt.Errorf("scripted node: toBlock: %w", err)
+	}
+	r, err := n.gate(&gcall{m: "Filter", from: from, to: to})
+	if err != nil {
+		return nil, err
+	}
+	logs := []*types.Log{}
+	for _, id := range r.ids {
+		logs = append(logs, n.r.logOf(id, false))
+	}
+	return logs, nil
+}
+
+// Logs serves eth_subscribe("logs", ...).
+func (n *ethNode) Logs(ctx context.Context, _ map[string]any) (*rpc.Subscription, error) {
+	notifier, ok := rpc.NotifierFromContext(ctx)
+	if !ok {
+		return nil, rpc.ErrNotificationsUnsupported
+	}
+	sub := notifier.CreateSubscription()
+	n.mu.Lock()
+	n.notifier, n.subID = notifier, sub.ID
+	n.mu.Unlock()
+	if _, err := n.gate(&gcall{m: "Watch"}); err != nil {
+		return nil, err
+	}
+	return sub, nil
+}
+
+func (n *ethNode) notify(lg *types.Log) error {
+	n.mu.Lock()
+	notifier, id := n.notifier, n.subID
+	n.mu.Unlock()
+	if notifier == nil {
+		return errors.New("no subscription")
+	}
+	return notifier.Notify(id, lg)
+}
+
+func word(v uint64) []byte { return common.LeftPadBytes(new(big.Int).SetUint64(v).Bytes(), 32) }
+
+// logOf is event id as the LogStateUpdate(globalRoot, blockNumber, blockHash) log the core
+// contract emits; the field values are those of (*run).update.
+func (r *run) logOf(id int, removed bool) *types.Log {
+	data := append(append(word(uint64(1000+id)), word(uint64(r.l2of[id]))...), word(uint64(id))...)
+	h := uint64(r.l1of[id])
+	return &types.Log{
+		Address:     common.HexToAddress(coreContract),
+		Topics:      []common.Hash{logStateUpdateTopic},
+		Data:        data,
+		BlockNumber: h,
+		TxHash:      common.BigToHash(new(big.Int).SetUint64(uint64(7000 + id))),
+		BlockHash:   common.BigToHash(new(big.Int).SetUint64(0xb10c0000 + h)),
+		Index:       uint(id),
+		Removed:     removed,
+	}
+}
+
 // ---------------------------------------------------------------------------- scripted L1 node + monitor
 
 type msg struct {
@@ -176,6 +349,13 @@ type run struct {
 	mu     sync.Mutex
 	closed bool
 	bc     *blockchain.Blockchain
+
+	// geth mode
+	node      *ethNode
+	tap       *tapProvider
+	httpSrv   *httptest.Server
+	forceFail bool   // the connection was dropped: the pending call cannot succeed
+	broken    string // harness problem detected inside a node action
 }
 
 func (r *run) log(e event) {
@@ -226,7 +406,26 @@ func (r *run) update(id int, removed bool) *jl1.StateUpdate {
 
 func (r *run) send(id int, removed bool) {
 	r.sent = append(r.sent, msg{id, removed})
-	r.ch <- r.update(id, removed) // buffered (128); the script never sends that many
+	if r.node == nil {
+		r.ch <- r.update(id, removed) // buffered (128); the script never sends that many
+		return
+	}
+	// geth mode: notify the subscription and wait until the log has travelled through the websocket,
+	// the abigen watcher and forwardStateUpdates into the client's channel (the client is blocked in
+	// an rpc call meanwhile, so the channel only grows)
+	before := len(r.ch)
+	if err := r.node.notify(r.logOf(id, removed)); err != nil {
+		r.broken = "notify failed: " + err.Error()
+		return
+	}
+	deadline := time.Now().Add(gateTimeout)
+	for len(r.ch) != before+1 {
+		if time.Now().After(deadline) {
+			r.broken = "a pushed log never reached the client's update channel"
+			return
+		}
+		time.Sleep(20 * time.Microsecond)
+	}
 }
 
 func (r *run) eventsIn(lo, hi int) []int {
@@ -322,6 +521,12 @@ func (r *run) subFail() {
 	r.log(event{Ev: "SubFail"})
 	r.subUp = false
 	r.fails++
+	if r.node != nil {
+		// drop the websocket: the subscription errors out, and so does the call the client is blocked in
+		r.forceFail = true
+		r.httpSrv.CloseClientConnections()
+		return
+	}
 	r.sub.errCh <- errors.New("subscription dropped")
 }
 
@@ -440,8 +645,11 @@ type outcome struct {
 
 const gateTimeout = 20 * time.Second
 
-func oneRun(seed int64, idx, rounds int, lag bool) outcome {
+func oneRun(seed int64, idx, rounds int, lag, geth bool) outcome {
 	rng := rand.New(rand.NewSource(seed*1_000_003 + int64(idx)))
+	if geth {
+		rng = rand.New(rand.NewSource(seed*1_000_003 + int64(idx) + 500_000))
+	}
 	r := &run{rng: rng, idx: idx, lag: lag, l1of: map[int]int{}, l2of: map[int]int{}, delivered: map[int]bool{}}
 	r.chunk = []int{1, 2, 3, 10}[rng.Intn(4)]
 	st := map[string]int{}
@@ -466,14 +674,34 @@ func oneRun(seed int64, idx, rounds int, lag bool) outcome {
 
 	r.bc = blockchain.New(memory.New(), &networks.Sepolia)
 	p := &provider{calls: make(chan *gcall)}
+	var prov jl1.L1StateProvider = p
+	ctx, cancel := context.WithCancel(context.Background())
+	if geth {
+		r.node = &ethNode{r: r, calls: p.calls, done: make(chan struct{})}
+		rpcServer := rpc.NewServer()
+		if err := rpcServer.RegisterName("eth", r.node); err != nil {
+			panic(err)
+		}
+		r.httpSrv = httptest.NewServer(rpcServer.WebsocketHandler([]string{"*"}))
+		defer r.httpSrv.Close()
+		defer rpcServer.Stop()
+		defer close(r.node.done)
+		real, err := jl1.NewGethL1StateProvider(ctx, "ws"+strings.TrimPrefix(r.httpSrv.URL, "http"), eth.AddressFromString(coreContract))
+		if err != nil {
+			cancel()
+			out.broken = "cannot connect the real GethL1StateProvider to the in-process node: " + err.Error()
+			return out
+		}
+		r.tap = &tapProvider{GethL1StateProvider: real}
+		prov = r.tap
+	}
 	poll := []time.Duration{20 * time.Microsecond, 200 * time.Microsecond, 2 * time.Millisecond}[rng.Intn(3)]
 	listener := jl1.SelectiveListener{OnNewL1HeadCb: func(h *core.L1Head) {
 		r.log(event{Ev: "NewHead", X: headID(*h)})
 	}}
-	client := jl1.NewClient(p, r.bc, log.NewNopZapLogger(),
+	client := jl1.NewClient(prov, r.bc, log.NewNopZapLogger(),
 		jl1.WithPollFinalisedInterval(poll), jl1.WithResubscribeDelay(200*time.Microsecond),
 		jl1.WithCatchUpChunkSize(uint64(r.chunk)), jl1.WithEventListener(listener))
-	ctx, cancel := context.WithCancel(context.Background())
 	done := make(chan error, 1)
 	go func() { done <- client.Run(ctx) }()
 	finish := func() {
@@ -507,6 +735,9 @@ func oneRun(seed int64, idx, rounds int, lag bool) outcome {
 			return out
 		}
 		// ---- the client is blocked: log its arrival
+		if r.tap != nil {
+			r.ch = r.tap.channel()
+		}
 		q := -1
 		if r.ch != nil {
 			q = len(r.ch)
@@ -588,9 +819,15 @@ func oneRun(seed int64, idx, rounds int, lag bool) outcome {
 				case a < 9 && r.subUp && r.subPos < r.top():
 					r.push()
 					st["pushes"]++
-				case a == 9 && r.subUp && r.fails < maxFail && rng.Intn(2) == 0:
+				case a == 9 && r.subUp && r.fails < maxFail && rng.Intn(2) == 0 &&
+					(r.node == nil || (r.fails+2 <= maxFail && !r.forceFail)):
 					r.subFail()
 					st["subfails"]++
+				}
+				if r.broken != "" {
+					out.broken = r.broken
+					finish()
+					return out
 				}
 			}
 		}
@@ -600,7 +837,8 @@ func oneRun(seed int64, idx, rounds int, lag bool) outcome {
 		if r.ch == nil {
 			failOneIn = 16 // keep most catch-up scans alive
 		}
-		fail := !winding && r.fails < maxFail && rng.Intn(failOneIn) == 0
+		fail := r.forceFail || (!winding && r.fails < maxFail && rng.Intn(failOneIn) == 0)
+		r.forceFail = false
 		resp := gresp{}
 		okv := 1
 		if fail {
@@ -631,6 +869,7 @@ func oneRun(seed int64, idx, rounds int, lag bool) outcome {
 			var got []int
 			if !fail {
 				got = r.eventsIn(int(c.from), int(c.to))
+				resp.ids = got
 				for _, e := range got {
 					resp.events = append(resp.events, r.update(e, false))
 					r.delivered[e] = true
@@ -641,9 +880,11 @@ func oneRun(seed int64, idx, rounds int, lag bool) outcome {
 			r.log(event{Ev: "RetFilter", X: okv, Y: len(got)})
 		case "Watch":
 			if !fail {
-				r.ch = c.ch
-				r.sub = &gsub{errCh: make(chan error, 1)}
-				resp.sub = r.sub
+				if r.node == nil {
+					r.ch = c.ch
+					r.sub = &gsub{errCh: make(chan error, 1)}
+					resp.sub = r.sub
+				}
 				r.subUp = true
 				r.subPos = r.top()
 			}
@@ -703,7 +944,7 @@ func TestL1Record(t *testing.T) {
 		go func(i int) {
 			defer wg.Done()
 			defer func() { <-sem }()
-			results[i-lo] = oneRun(seed, i, rounds, in.Lag)
+			results[i-lo] = oneRun(seed, i, rounds, in.Lag, in.Geth)
 		}(i)
 	}
 	wg.Wait()
@@ -727,7 +968,7 @@ func TestL1Record(t *testing.T) {
 		if o.viol != nil {
 			out.Diverge(vh.Divergence{
 				Key: o.viol.key, What: o.viol.what, Step: len(o.events),
-				Input:    vh.J{"seed": seed, "only": idx, "traces": in.Traces, "rounds": rounds, "lag": in.Lag},
+				Input:    vh.J{"seed": seed, "only": idx, "traces": in.Traces, "rounds": rounds, "lag": in.Lag, "geth": in.Geth},
 				Observed: o.events,
 			})
 		}
